@@ -11,6 +11,8 @@ one model is always the same, only the offset of the global counter differs):
       list in index order, every index equal to the in-process result.
 """
 import json
+import sys
+import os
 import random
 import re
 
@@ -537,6 +539,9 @@ def run(sh):
             import traceback
             sh.count('crashed_cases')
             sh.notes.append(f'C14 case crashed: {type(e).__name__}: {e} {traceback.format_exc()[-600:]}')
+    # (e) the same model and seed in fresh interpreters with different hash seeds
+    for i in sh.share(16 if sh.tier == 'quick' else 400):
+        hashseed_case(sh, i)
     # (d) the whole model deep-copied in the middle of the simulation: the copy, continued on its own, and the
     # original, continued afterwards, both end like the run that was never copied
     for i in sh.share(144 if sh.tier == 'quick' else 12000):
@@ -726,6 +731,55 @@ def run(sh):
             import traceback
             sh.violation('parallel_crash', f'{type(e).__name__}: {e} {traceback.format_exc()[-900:]}', case,
                          engine='parallel')
+
+
+def digest_main(path):
+    """Child process of the hash-seed leg: build the model in <path>, run it, print its digest."""
+    import hashlib
+    core.load_library()
+    case = json.load(open(path))
+    d, _, _ = run_model(case['spec'], case['seed'], [sum(case['spec']['horizon'])], 'native')
+    print('DIGEST ' + hashlib.sha256(d.encode()).hexdigest())
+
+
+def hashseed_case(sh, i):
+    """The same model with the same seed in fresh interpreters that differ only in PYTHONHASHSEED: nothing a user can
+    read afterwards may depend on the iteration order of hash-based containers."""
+    import subprocess
+    import tempfile
+    seed = core.stable_int(sh.seed, 'C14hash', i) % (1 << 30)
+    spec = modelgen.generate(seed, ['routing', 'general', 'resources', 'faults'][i % 4])
+    spec['horizon'] = [sum(spec['horizon'])]
+    spec.pop('between', None)
+    if i % 2:
+        spec['default_names'] = True
+    case = {'engine': 'hashseed', 'spec': spec, 'seed': seed}
+    root = os.path.dirname(os.path.dirname(os.path.dirname(os.path.abspath(__file__))))
+    fd, path = tempfile.mkstemp(prefix='simmon_hash_', suffix='.json')
+    os.close(fd)
+    try:
+        json.dump(case, open(path, 'w'))
+        outs = []
+        for hs in ('0', '1', '4242'):
+            env = dict(os.environ, PYTHONHASHSEED=hs, PYTHONPATH=root + os.pathsep + os.environ.get('PYTHONPATH', ''))
+            r = subprocess.run([sys.executable, '-c',
+                                f'from simmon.props import C14; C14.digest_main({path!r})'],
+                               capture_output=True, text=True, env=env, cwd=root, timeout=600)
+            line = [x for x in r.stdout.splitlines() if x.startswith('DIGEST ')]
+            if not line:
+                sh.notes.append('hash-seed child failed: ' + (r.stderr or r.stdout)[-400:])
+                sh.count('hashseed_children_failed')
+                return
+            outs.append(line[0])
+        if len(set(outs)) > 1:
+            sh.violation('same_seed_differs', f'the same model with seed {seed} ends differently in interpreters started with '
+                         f'PYTHONHASHSEED 0 / 1 / 4242 (digests {[o[7:15] for o in outs]})', case, engine='hashseed')
+        else:
+            sh.count('models_compared_across_hash_seeds')
+        sh.case_done({'spec_hash': core.case_hash(spec), 'seed': seed, 'hash': True}, True,
+                     sample={'hash_seeds': 3, 'devices': len(spec['items'])})
+    finally:
+        os.remove(path)
 
 
 def replay(sh, v):
